@@ -79,6 +79,30 @@ Section StackSeq.
     | _ => (st, SErr)
     end.
 
+  (* a multi-table Addition (NewAddition / Add ... / Commit): table k is written at update
+     index next+k and validated against the view that includes the Addition's earlier
+     tables; one refusal abandons the whole Addition; no auto-compaction afterwards *)
+  Fixpoint addition_go (cfg : config) (name_check : bool) (ui : N) (txs : list (list ref_record))
+           (st0 cur : list stbl) : list stbl * status :=
+    match txs with
+    | [] => (cur, SOk)
+    | refs :: rest =>
+        match write_table deflate cfg ui ui refs [] with
+        | Ok (true, _) => addition_go cfg name_check (ui + 1) rest st0 cur
+        | Ok (false, data) =>
+            let names := map r_name (stack_refs (tables cur)) in
+            let tx := map (fun r => (r_name r, ref_is_del r)) refs in
+            if name_check && negb (validate_addition names tx) then (st0, SRejected)
+            else match decode_table data with
+                 | Ok t => addition_go cfg name_check (ui + 1) rest st0 (cur ++ [(t, compaction_size cfg data)])
+                 | _ => (st0, SErr)
+                 end
+        | _ => (st0, SErr)
+        end
+    end.
+  Definition stack_addition (cfg : config) (name_check : bool) (txs : list (list ref_record)) (st : list stbl)
+    : list stbl * status := addition_go cfg name_check (next_index st) txs st st.
+
   (* CompactAll(expiry) *)
   Definition stack_compact_all (cfg : config) (e : option expiry) (st : list stbl) : list stbl * status :=
     match st with
